@@ -22,6 +22,9 @@ def header_bytes(refs):
     return out
 
 
+SEQ_LETTERS = "=ACMGRSVTWYHKDBN"          # SAM/BAM specification, section 4.2: the 4-bit sequence codes
+
+
 def record_layout(rec):
     """rec: dict(name_len (without NUL), n_cigar, l_seq, n_tag, unmapped) -> (block_size, list of field specs)"""
     l_read_name = rec["name_len"] + 1
@@ -33,8 +36,11 @@ def record_layout(rec):
 def declare_record(V, i, rec, n_ref):
     v = {}
     v["ref"] = None if rec.get("unmapped") else V.int(f"r{i}_ref", 0, max(n_ref - 1, 0))
-    v["pos"] = [V.byte(f"r{i}_pos{k}") for k in range(4)]
-    V.assume(V.vars[f"r{i}_pos3"].t < 128)            # non-negative 0-based position
+    if rec.get("pos_minus1"):                         # an unplaced read: pos = -1 (all four bytes 0xFF)
+        v["pos"] = [V.int(f"r{i}_pos{k}", 255, 255) for k in range(4)]
+    else:
+        v["pos"] = [V.byte(f"r{i}_pos{k}") for k in range(4)]
+        V.assume(V.vars[f"r{i}_pos3"].t < 128)            # non-negative 0-based position
     v["mapq"] = V.byte(f"r{i}_mapq")
     v["flag"] = [V.byte(f"r{i}_flag{k}") for k in range(2)]
     v["name"] = [V.int(f"r{i}_n{k}", 33, 126) for k in range(rec["name_len"])]
@@ -86,6 +92,8 @@ class Decode(Harness):
         ]
         # a read name near the 254-character limit (l_read_name is one unsigned byte), followed by a short record
         sets += [[R(230, 1, 1, 0), R(1, 1, 1, 0)]]
+        # an unplaced read (refID = -1, pos = -1) after a placed one
+        sets += [[R(1, 1, 2, 0), dict(R(1, 0, 2, 0, True), pos_minus1=True)]]
         # a record with 16384 CIGAR operations (n_cigar_op * 4 reaches 2^16: long reads have such CIGARs), the words being the literal 1M
         sets += [[dict(R(1, 16384, 2, 1), cigar_fixed=True), R(1, 1, 1, 0)]]
         if tier == "thorough":
@@ -152,6 +160,8 @@ class Decode(Harness):
                 rows.append(dict(chrom=d.chromosome[j].to_string(), name=ctx.lst(d.name[j].raw()), flag=ctx.lst(d.flag[j]),
                                  pos=ctx.lst(d.position[j]), mapq=ctx.lst(d.mapq[j]), op=ctx.lst(d.cigar_op[j].raw()),
                                  oplen=ctx.lst(d.cigar_length[j]), seq=ctx.lst(d.sequence[j].raw()),
+                                 seq_text=ctx.lst(d.sequence.encoding.decode(d.sequence[j]).raw()),      # the letters, through the library's own table
+                                 op_text=ctx.lst(d.cigar_op.encoding.decode(d.cigar_op[j]).raw()),
                                  qual=ctx.lst(d.quality[j])))
         return dict(rows=rows, n_chunks=len(bufs))
 
@@ -160,6 +170,8 @@ class Decode(Harness):
         rec = skel["recs"][i]
         g = lambda nm: val(x[nm])
         pos = g(f"r{i}_pos0") + 256 * g(f"r{i}_pos1") + 65536 * g(f"r{i}_pos2") + 16777216 * g(f"r{i}_pos3")
+        if rec.get("pos_minus1"):
+            pos = pos - 2 ** 32                      # int32: 0xFFFFFFFF is -1
         flag = g(f"r{i}_flag0") + 256 * g(f"r{i}_flag1")
         ops, lens = [], []
         for c in range(rec["n_cigar"]):
@@ -217,6 +229,12 @@ class Decode(Harness):
             conj += [TI(row["flag"]) == sp["flag"], TI(row["pos"]) == sp["pos"], TI(row["mapq"]) == sp["mapq"]]
             conj += [TI(a) == b for a, b in zip(row["op"], sp["ops"])] + [TI(a) == b for a, b in zip(row["oplen"], sp["lens"])]
             conj += [TI(a) == b for a, b in zip(row["seq"], sp["seq"])] + [TI(a) == b for a, b in zip(row["qual"], sp["qual"])]
+            # the letters of the specification: 4-bit code k is the k-th character of '=ACMGRSVTWYHKDBN', CIGAR operation k of 'MIDNSHP=X'
+            sel_ = lambda table, t: (lambda r_: [r_ := z3.If(t == k_, ord(ch_), r_) for k_, ch_ in enumerate(table)][-1])(z3.IntVal(-1))
+            if len(row["seq_text"]) != rec["l_seq"] or len(row["op_text"]) != rec["n_cigar"]:
+                return False
+            conj += [TI(a) == sel_(SEQ_LETTERS, b) for a, b in zip(row["seq_text"], sp["seq"])]
+            conj += [TI(a) == sel_(CIGAR_OPS, b) for a, b in zip(row["op_text"], sp["ops"])]
         return z_and(conj)
 
     def oracle(self, skel, cx, cout):
@@ -243,7 +261,8 @@ class Decode(Harness):
                 if got != exp:
                     return f"record {i}: interval {got}, specification {exp} (cigar {[(CIGAR_OPS[o], l) for o, l in zip(sp['ops'], sp['lens'])]})"
                 continue
-            exp = dict(flag=sp["flag"], pos=sp["pos"], mapq=sp["mapq"], op=sp["ops"], oplen=sp["lens"], seq=sp["seq"], qual=sp["qual"])
+            exp = dict(flag=sp["flag"], pos=sp["pos"], mapq=sp["mapq"], op=sp["ops"], oplen=sp["lens"], seq=sp["seq"], qual=sp["qual"],
+                       seq_text=[ord(SEQ_LETTERS[c]) for c in sp["seq"]], op_text=[ord(CIGAR_OPS[c]) for c in sp["ops"]])
             got = {k: row[k] for k in exp}
             if got != exp:
                 return f"record {i} (layout {rec}): decoded {got}, specification {exp}"
